@@ -587,8 +587,9 @@ def r06_10(ctx: Ctx, rule: str = "R06.10") -> None:
 
 def r06_11(ctx: Ctx) -> None:
     """7zAES coder properties are taken apart as the format lays them out (any legal salt/iv size, including iv size 0)."""
-    from ..bitdom import aes_property_agreement
+    from ..bitdom import aes_property_agreement, aes_flags_clear_accepted
     aes_property_agreement(ctx, "R06.11")
+    aes_flags_clear_accepted(ctx, "R06.11")
 
 
 def _cmp_with_small(e: ast.AST, is_count) -> bool:
@@ -772,7 +773,193 @@ def r06_13(ctx: Ctx, rule: str = "R06.13") -> None:
         ctx.note(f"{rule}: no compact CRC list (read_crcs(file, flags.count(True))) is indexed in archiveinfo: nothing to decide")
 
 
+def r06_14(ctx: Ctx, rule: str = "R06.14") -> None:
+    """the 'no more data will come' verdict of the decoder pipeline (is_exhausted, on which Worker.decompress and the packed-header loop
+    raise 'unexpected end of data') depends on what the STAGES did, not only on the packed input and the output buffer: a stage may
+    legitimately return nothing for a call while data moves inside the chain (lzma/bz2 keep decoded bytes under max_length, a branch
+    filter keeps an incomplete word).  Dataflow: some field read by is_exhausted is computed from the per-stage counters that
+    _decompress updates."""
+    cls = ctx.prog.cls("SevenZipDecompressor", "compressor")
+    ex = cls.methods.get("is_exhausted")
+    if ex is None:
+        ctx.note(f"{rule}: SevenZipDecompressor.is_exhausted does not exist (no stall verdict to decide)")
+        return
+    dec = cls.methods["_decompress"]
+    stage_fields = set()
+    for lp in [n for n in walk(dec.node) if isinstance(n, ast.For)]:
+        for n in ast.walk(lp):
+            tg = n.targets if isinstance(n, ast.Assign) else ([n.target] if isinstance(n, (ast.AugAssign, ast.AnnAssign)) else [])
+            for t in tg:
+                base = t.value if isinstance(t, ast.Subscript) else t
+                if isinstance(base, ast.Attribute) and isinstance(base.value, ast.Name) and base.value.id == "self":
+                    stage_fields.add(base.attr)
+    ctx.need(bool(stage_fields), "per-stage counters written by SevenZipDecompressor._decompress not found")
+    reads = {n.attr for n in walk(ex.node) if isinstance(n, ast.Attribute) and isinstance(n.value, ast.Name) and n.value.id == "self"}
+    # one level of derivation: a field assigned anywhere in the class from an expression that mentions a stage field
+    derived = set()
+    for m in cls.methods.values():
+        for n in walk(m.node):
+            if isinstance(n, (ast.Assign, ast.AnnAssign)) and n.value is not None:
+                for t in (n.targets if isinstance(n, ast.Assign) else [n.target]):
+                    if isinstance(t, ast.Attribute) and isinstance(t.value, ast.Name) and t.value.id == "self":
+                        mentions = {x.attr for x in ast.walk(q.expand_locals(m, n.value)) if isinstance(x, ast.Attribute)}
+                        if mentions & stage_fields:
+                            derived.add(t.attr)
+    ok = bool(reads & (stage_fields | derived)) or any(attr_tail(c) in ("needs_input", "eof") for c in q.calls(ex)) \
+        or bool({n.attr for n in walk(ex.node) if isinstance(n, ast.Attribute)} & {"needs_input", "eof"})
+    ctx.check(ok, rule, ex, ex.node, "the stall verdict depends on stage-level progress",
+              f"SevenZipDecompressor.is_exhausted reads only {sorted(reads)}: it reports 'exhausted' while data is still moving between the stages of the chain "
+              f"(per-stage state {sorted(stage_fields)} is ignored), so a valid solid folder coded as branch filter + LZMA/BZip2/PPMd whose member ends inside the "
+              "filter's work unit is refused with 'Unexpected end of data'", construct="is_exhausted inputs")
+
+
+# fields the header parser fills that the read path legitimately never consults (one reason each; confirmed by reading)
+PARSED_UNUSED_OK = {
+    "version": "format version of the signature header: informational, no layout depends on it",
+    "numstreams": "redundant with len(packsizes); kept for the writer",
+    "enable_digests": "writer-side switch derived from the parsed CRC list",
+    "_start_pos": "offset bookkeeping of the header object, not archive data",
+    "[startpos]": "kStartPos (offset of a member inside a volume set) has no effect on a single archive file",
+    "num_bindpairs": "count only; the pairs themselves are parsed into bindpairs",
+    "num_packedstreams": "count only; the indices are parsed into packed_indices",
+    "num_coders": "count only",
+    "antifiles": "anti-items are refused while parsing (unsupported feature fails loudly)",
+}
+
+
+def r06_15(ctx: Ctx, rule: str = "R06.15") -> None:
+    """no format information is dropped on the floor: every field the header parser (archiveinfo `_read*` / `read` / `_retrieve*`
+    methods) fills from the archive is consulted somewhere on the read path - another statement of the parser, the member walk, the
+    decoder set-up or a listing accessor.  A field that only the WRITER reads (or nobody) means the reader ignores what the format says
+    (EmptyFile vector: a directory without an attribute word is taken for an empty file; bind pairs: the coder graph is assumed linear)."""
+    clo = shared.read_closure(ctx)
+    mod = ctx.prog.module("archiveinfo")
+    assigned: Dict[str, Tuple[Func, ast.AST]] = {}
+    for cls in mod.classes.values():
+        for m in cls.methods.values():
+            if not (m.name.startswith("_read") or m.name in ("read",) or m.name.startswith("_retrieve")) or m.qname not in clo:
+                continue
+            for n in walk(m.node):
+                tg = n.targets if isinstance(n, ast.Assign) else ([n.target] if isinstance(n, (ast.AnnAssign, ast.AugAssign)) else [])
+                for t in tg:
+                    for t1 in (t.elts if isinstance(t, ast.Tuple) else [t]):
+                        if isinstance(t1, ast.Attribute) and isinstance(t1.value, ast.Name) and t1.value.id != "cls":
+                            assigned.setdefault(t1.attr, (m, n))
+                        if isinstance(t1, ast.Subscript) and isinstance(t1.slice, ast.Constant) and isinstance(t1.slice.value, str):
+                            assigned.setdefault("[" + t1.slice.value + "]", (m, n))
+                if isinstance(n, ast.Call) and isinstance(n.func, ast.Attribute) and n.func.attr in ("append", "extend", "update") and isinstance(n.func.value, ast.Attribute):
+                    assigned.setdefault(n.func.value.attr, (m, n))
+                    if n.func.attr == "update" and n.args and isinstance(n.args[0], ast.Dict):
+                        for k in n.args[0].keys:
+                            if isinstance(k, ast.Constant) and isinstance(k.value, str):
+                                assigned.setdefault("[" + k.value + "]", (m, n))
+    ctx.floor(rule, len(assigned), 20, "fields filled by the header parser")
+    reads: Dict[str, int] = {}
+    for fq, f in clo.items():
+        for n in walk(f.node):
+            key = None
+            if isinstance(n, ast.Attribute) and isinstance(n.ctx, ast.Load):
+                # `self.x.append(...)` is a store into x, not a use of it
+                key = n.attr
+            elif isinstance(n, ast.Subscript) and isinstance(n.ctx, ast.Load) and isinstance(n.slice, ast.Constant) and isinstance(n.slice.value, str):
+                key = "[" + n.slice.value + "]"
+            elif isinstance(n, ast.Call) and attr_tail(n) in ("get", "_get_property") and n.args and isinstance(n.args[0], ast.Constant) and isinstance(n.args[0].value, str):
+                key = "[" + n.args[0].value + "]"
+            elif isinstance(n, ast.Call) and isinstance(n.func, ast.Name) and n.func.id == "getattr" and len(n.args) > 1 and isinstance(n.args[1], ast.Constant):
+                key = n.args[1].value
+            if key is not None:
+                reads[key] = reads.get(key, 0) + 1
+    # subtract the loads that are only the receiver of a mutating call (self.x.append(v))
+    for fq, f in clo.items():
+        for n in walk(f.node):
+            if isinstance(n, ast.Call) and isinstance(n.func, ast.Attribute) and n.func.attr in ("append", "extend", "update", "clear") and isinstance(n.func.value, ast.Attribute):
+                reads[n.func.value.attr] = reads.get(n.func.value.attr, 0) - 1
+    for name, (m, node) in sorted(assigned.items()):
+        if name in PARSED_UNUSED_OK:
+            ctx.ok(rule, f"{name}: not consulted by design ({PARSED_UNUSED_OK[name]})")
+            continue
+        ctx.check(reads.get(name, 0) > 0, rule, m, node, f"parsed field {name} is consulted on the read path",
+                  f"{m.qname} fills `{name}` from the archive, but nothing on the read path ever consults it: the information the format stores there is ignored "
+                  "(only the writer, or nobody, reads it)", construct=f"parsed field {name}")
+
+
+def r06_16(ctx: Ctx, rule: str = "R06.16") -> None:
+    """a raw liblzma chain must end in LZMA1/LZMA2: `_get_lzma_decompressor` hands `lzma.LZMADecompressor(format=FORMAT_RAW, filters=...)`
+    whatever 'native' coders it was given.  Delta and IA64 are native FILTERS; chained with a non-LZMA compressor (BZip2, Deflate, Copy,
+    PPMd, ZStd: what `7z a -m0=Delta -m1=BZip2` writes) they arrive here alone and liblzma refuses the chain.  Necessary condition: the
+    raw decoder is only built on a path that has established that a LZMA1/LZMA2 coder is part of the chain (otherwise the filter needs a
+    stand-alone decoder)."""
+    f = ctx.prog.func("compressor", "SevenZipDecompressor._get_lzma_decompressor")
+    cfg = cfg_of(f.node)
+    raws = [c for c in q.calls(f) if dotted(c.func) == "lzma.LZMADecompressor" and any(k.arg == "format" and norm(k.value).endswith("FORMAT_RAW") for k in c.keywords)]
+    ctx.floor(rule, len(raws), 1, "raw LZMADecompressor constructions")
+    for c in raws:
+        facts = q.facts_at(f, c)
+        established = any(("FILTER_LZMA2" in norm(cd) or "is_compressor" in norm(cd) or "lzma2" in norm(cd).lower()) for cd, pol in facts)
+        # or: a dominating test that raises when no LZMA coder is present
+        for t in cfg.nodes:
+            if t.kind == "test" and ("FILTER_LZMA2" in norm(t.ast) or "is_compressor" in norm(t.ast)) and cfg.dominates(t, q.node_for(f, c)):
+                for e in t.succ:
+                    if e.kind in ("true", "false") and q.branch_always_raises(cfg, e):
+                        established = True
+        ctx.check(established, rule, f, c, "a raw liblzma chain is built only where it is known to end in LZMA1/LZMA2",
+                  "`lzma.LZMADecompressor(format=FORMAT_RAW, filters=...)` is built for any list of 'native' coders: a folder that chains Delta (or IA64) with BZip2 / Deflate / "
+                  "Copy / PPMd / ZStd reaches it with the filter alone and every read fails with LZMAError('Invalid or unsupported options') although each coder is supported",
+                  construct="raw lzma chain without compressor")
+
+
+def r06_17(ctx: Ctx, rule: str = "R06.17") -> None:
+    """type agreement of header comparisons: what `<stream>.read(n)` returns is bytes, what read_byte()/ord()/x[i] return is an int.  A
+    comparison (==, !=, in) of one kind with a CONSTANT of the other kind has a fixed outcome: `assert fp.read(1) == 0x00` fails for
+    every archive that carries the record (kStartPos), a dispatch arm of that shape is dead."""
+    clo = shared.read_closure(ctx)
+    n = 0
+    for fq, f in sorted(clo.items()):
+        if f.module not in ("archiveinfo", "py7zr", "compressor", "helpers"):
+            continue
+
+        def kind(e: ast.AST, depth: int = 3) -> Optional[str]:
+            if isinstance(e, ast.Constant):
+                if isinstance(e.value, bytes):
+                    return "bytes"
+                if isinstance(e.value, int) and not isinstance(e.value, bool):
+                    return "int"
+                return None
+            if isinstance(e, ast.Call):
+                if isinstance(e.func, ast.Attribute) and e.func.attr == "read" and len(e.args) <= 1 and not isinstance(e.func.value, ast.Attribute):
+                    return "bytes"
+                if attr_tail(e) in ("read_byte",) or dotted(e.func) in ("ord", "len", "int"):
+                    return "int"
+                if dotted(e.func) in ("unhexlify", "binascii.unhexlify", "bytes"):
+                    return "bytes"
+                return None
+            if isinstance(e, ast.Attribute) and isinstance(e.value, ast.Name) and e.value.id == "PROPERTY":
+                return "bytes"
+            if isinstance(e, ast.Name) and depth > 0 and e.id not in f.params:
+                vals = q.assigned_values(f, e.id)
+                ks = {kind(v, depth - 1) for v in vals}
+                return ks.pop() if len(ks) == 1 else None
+            return None
+
+        for c in walk(f.node):
+            if not (isinstance(c, ast.Compare) and len(c.ops) == 1 and isinstance(c.ops[0], (ast.Eq, ast.NotEq))):
+                continue
+            a, b = c.left, c.comparators[0]
+            ka, kb = kind(a), kind(b)
+            if ka is None or kb is None or not (isinstance(a, ast.Constant) or isinstance(b, ast.Constant)):
+                continue
+            n += 1
+            ctx.check(ka == kb, rule, f, c, f"{fq}: comparison of like kinds",
+                      f"`{norm(c)}` compares {ka} with {kb}: the outcome is the same for every input (a bytes object never equals an int), so the assertion/branch it guards "
+                      "fails or is dead for every archive that reaches it", construct=f"bytes/int comparison {norm(c)[:50]}")
+    ctx.floor(rule, n, 5, "typed constant comparisons in the read closure")
+
+
 def run(ctx: Ctx) -> None:
+    r06_17(ctx)
+    r06_16(ctx)
+    r06_15(ctx)
+    r06_14(ctx)
     r06_13(ctx)
     r06_12(ctx)
     r06_11(ctx)
